@@ -381,6 +381,42 @@ def run_C15(res):
             process_compare_one(res, sc)
         else:
             res.count("timed_scripts_shape_only")
+    twin_scripts_C15(res, rnd)
+
+
+def twin_scripts_C15(res, rnd):
+    """two positions with the same key (same placement, the castling right of one wing referring to different rooks) searched one after
+    the other without ucinewgame: the table left by the first search holds moves that need not exist in the second position"""
+    import concurrent.futures
+    from props_search import key_twin_pairs
+    twins = key_twin_pairs(res, rnd, 3000 * res.escalate if res.tier == "quick" else 30000, 160 if res.tier == "quick" else 2000)
+    fa = run_hx(["fenout " + a for a, b in twins])
+    fb = run_hx(["fenout " + b for a, b in twins])
+    scripts = []
+    for x, y in zip(fa, fb):
+        if x in ("PANIC", "DIED") or y in ("PANIC", "DIED") or x == y:
+            continue
+        scripts.append(["setoption name UCI_Chess960 value true", "isready", "position fen " + x, "go depth 3", "position fen " + y, "go depth 3",
+                        "position fen " + x, "go depth 2", "isready", "quit"])
+
+    def one(sc):
+        return run_engine(sc, "release", timeout=30)
+    with concurrent.futures.ThreadPoolExecutor(12) as ex:
+        outs = list(ex.map(one, scripts))
+    for sc, (rc, out, err, to, secs) in zip(scripts, outs):
+        res.evaluations += 1
+        res.count("key_twin_scripts")
+        if to:
+            res.fail("engine hung (no exit within 30 s)", script=sc, build="release")
+        elif rc != 0 or "panicked" in err:
+            res.fail("engine crashed", script=sc, build="release", exit_status=rc, stderr=err[-300:])
+        else:
+            lines = out.split("\n")
+            if sum(1 for l in lines if l == "readyok") != 2 or sum(1 for l in lines if l.startswith("bestmove")) != 3:
+                res.fail("wrong number of readyok / bestmove lines", script=sc, build="release",
+                         observed=[sum(1 for l in lines if l == "readyok"), sum(1 for l in lines if l.startswith("bestmove"))], expected=[2, 3])
+    for sc in scripts[:6]:
+        process_compare_one(res, sc)
 
 
 def process_compare_one(res, sc):
